@@ -1492,23 +1492,23 @@ var softPairTable = map[string]struct {
 	why     string
 	callees []string
 }{
-	"dragonboat.ErrRejected":      {"a compaction request that raft refuses is not an error of log removal", []string{"(*dragonboat.node).requestCompaction"}},
-	"pred:dragonboat.saveAborted": {"the user state machine aborted the save (ErrSnapshotStopped): the task ends without a snapshot", []string{"(*dragonboat.snapshotter).Commit", "(*internal/rsm.StateMachine).Save"}},
-	"pred:dragonboat.snapshotCommitAborted": {"the snapshot being committed is older than one already published: dropped, nothing recorded", []string{"(*dragonboat.snapshotter).Commit"}},
-	"dragonboat.ErrNoSnapshot":    {"no snapshot recorded yet", []string{"(*dragonboat.snapshotter).GetSnapshotFromLogDB"}},
-	"pred:(*dragonboat.snapshotter).IsNoSnapshotError": {"no snapshot recorded yet", []string{"(*dragonboat.snapshotter).GetSnapshotFromLogDB"}},
-	"pred:dragonboat.isSoftSnapshotError": {"the log reader refuses a snapshot that is out of date / already compacted: nothing to do", []string{"(*internal/logdb.LogReader).ApplySnapshot", "(*internal/logdb.LogReader).CreateSnapshot", "(*internal/rsm.StateMachine).Save"}},
-	"raft.ErrCompacted":           {"the index asked for is already compacted: nothing left to remove / term unknown", []string{"(*internal/logdb.LogReader).Compact", "(*internal/raft.entryLog).term"}},
-	"raftio.ErrNoSavedLog":        {"an empty store", []string{"(*internal/logdb.db).getMaxIndex", "raftio.ILogDB.ReadRaftState"}},
-	"pred:dragonboat.openAborted": {"the user state machine's Open was stopped", []string{"(*internal/rsm.StateMachine).OpenOnDiskStateMachine"}},
-	"pred:dragonboat.streamAborted": {"streaming was stopped or failed: reported through the snapshot status", []string{"(*internal/rsm.StateMachine).Stream"}},
-	"pred:internal/tan.IsInvalidRecord": {"a torn tail record of a Tan log / manifest ends the replay", []string{"(*internal/tan.db).readLog", "(*internal/tan.reader).next", "(*internal/tan.versionEdit).decode"}},
-	"io.EOF":                      {"end of the record stream / of the header", []string{"(*internal/tan.reader).next", "(*internal/tan.versionEdit).decode", "encoding/binary.ReadUvarint", "io.ReadFull"}},
-	"io.ErrUnexpectedEOF":         {"short read of a trailing block: treated as end of data and validated by the caller", []string{"io.ReadFull"}},
+	"dragonboat.ErrRejected":                                {"a compaction request that raft refuses is not an error of log removal", []string{"(*dragonboat.node).requestCompaction"}},
+	"pred:dragonboat.saveAborted":                           {"the user state machine aborted the save (ErrSnapshotStopped): the task ends without a snapshot", []string{"(*dragonboat.snapshotter).Commit", "(*internal/rsm.StateMachine).Save"}},
+	"pred:dragonboat.snapshotCommitAborted":                 {"the snapshot being committed is older than one already published: dropped, nothing recorded", []string{"(*dragonboat.snapshotter).Commit"}},
+	"dragonboat.ErrNoSnapshot":                              {"no snapshot recorded yet", []string{"(*dragonboat.snapshotter).GetSnapshotFromLogDB"}},
+	"pred:(*dragonboat.snapshotter).IsNoSnapshotError":      {"no snapshot recorded yet", []string{"(*dragonboat.snapshotter).GetSnapshotFromLogDB"}},
+	"pred:dragonboat.isSoftSnapshotError":                   {"the log reader refuses a snapshot that is out of date / already compacted: nothing to do", []string{"(*internal/logdb.LogReader).ApplySnapshot", "(*internal/logdb.LogReader).CreateSnapshot", "(*internal/rsm.StateMachine).Save"}},
+	"raft.ErrCompacted":                                     {"the index asked for is already compacted: nothing left to remove / term unknown", []string{"(*internal/logdb.LogReader).Compact", "(*internal/raft.entryLog).term"}},
+	"raftio.ErrNoSavedLog":                                  {"an empty store", []string{"(*internal/logdb.db).getMaxIndex", "raftio.ILogDB.ReadRaftState"}},
+	"pred:dragonboat.openAborted":                           {"the user state machine's Open was stopped", []string{"(*internal/rsm.StateMachine).OpenOnDiskStateMachine"}},
+	"pred:dragonboat.streamAborted":                         {"streaming was stopped or failed: reported through the snapshot status", []string{"(*internal/rsm.StateMachine).Stream"}},
+	"pred:internal/tan.IsInvalidRecord":                     {"a torn tail record of a Tan log / manifest ends the replay", []string{"(*internal/tan.db).readLog", "(*internal/tan.reader).next", "(*internal/tan.versionEdit).decode"}},
+	"io.EOF":                                                {"end of the record stream / of the header", []string{"(*internal/tan.reader).next", "(*internal/tan.versionEdit).decode", "encoding/binary.ReadUvarint", "io.ReadFull"}},
+	"io.ErrUnexpectedEOF":                                   {"short read of a trailing block: treated as end of data and validated by the caller", []string{"io.ReadFull"}},
 	"pred:github.com/cockroachdb/errors/oserror.IsNotExist": {"the file does not exist yet", []string{"github.com/lni/vfs.FS.Stat"}},
-	"pred:internal/vfs.IsNotExist":                           {"the file does not exist yet", []string{"internal/vfs.IFS.Stat"}},
-	"pred:internal/rsm.ISnapshotter.IsNoSnapshotError":       {"no snapshot recorded yet", []string{"internal/rsm.ISnapshotter.GetSnapshot"}},
-	"raftio.ErrNoBootstrapInfo":                              {"the replica was never bootstrapped", []string{"raftio.ILogDB.GetBootstrapInfo"}},
+	"pred:internal/vfs.IsNotExist":                          {"the file does not exist yet", []string{"internal/vfs.IFS.Stat"}},
+	"pred:internal/rsm.ISnapshotter.IsNoSnapshotError":      {"no snapshot recorded yet", []string{"internal/rsm.ISnapshotter.GetSnapshot"}},
+	"raftio.ErrNoBootstrapInfo":                             {"the replica was never bootstrapped", []string{"raftio.ILogDB.GetBootstrapInfo"}},
 }
 
 // ruleSoftErrorPairs (C10; borrowed by C04, C14, C15, C16, C20).
@@ -1555,4 +1555,44 @@ func ruleSoftErrorPairs(e *Engine, r *Report) {
 		r.ok(rule, "error of "+sp.Callee+" read as soft ("+sp.Sentinel+") in "+sp.Fn, sp.Pos, ent.why)
 	}
 	r.floor(rule, n, 25)
+}
+
+// msgTypeSites: the instructions of fn at which a message of the constant type
+// c is built: a store of c into Message.Type, or a call of a same-package
+// helper that stores the parameter receiving c into Message.Type
+// (`r.handleTickMessage(pb.Election)`).
+func (e *Engine) msgTypeSites(fn *ssa.Function, msgType *types.Var, c *types.Const) []ssa.Instruction {
+	var out []ssa.Instruction
+	forEachInstr(fn, func(in ssa.Instruction) {
+		switch x := in.(type) {
+		case *ssa.Store:
+			if f, _, ok := fieldOfAddr(x.Addr); ok && f == msgType && constV(c)(x.Val) {
+				out = append(out, in)
+			}
+		case *ssa.Call:
+			g := x.Call.StaticCallee()
+			if g == nil || len(g.Blocks) == 0 || fnPkg(g) != fnPkg(fn) {
+				return
+			}
+			args := x.Call.Args
+			for i, a := range args {
+				if !constV(c)(a) || i >= len(g.Params) {
+					continue
+				}
+				p := g.Params[i]
+				hit := false
+				forEachInstr(g, func(y ssa.Instruction) {
+					if st, ok := y.(*ssa.Store); ok {
+						if f, _, ok := fieldOfAddr(st.Addr); ok && f == msgType && stripConv(st.Val) == ssa.Value(p) {
+							hit = true
+						}
+					}
+				})
+				if hit {
+					out = append(out, in)
+				}
+			}
+		}
+	})
+	return out
 }
